@@ -694,6 +694,38 @@ theorem addressed_ne_nil (s : Shape) (hs : Pos s) (axis : AxisArg) (keep : Bool)
   rw [reduceReads_eq_addressed s hs axis keep hv j hj, Option.some.injEq] at hr
   rw [hr]; exact hne
 
+/-! ### a duplicate-free list with the same members -/
+
+def dedupNat : List Nat → List Nat
+  | [] => []
+  | x :: xs => if x ∈ xs then dedupNat xs else x :: dedupNat xs
+
+theorem mem_dedupNat (k : Nat) : ∀ (l : List Nat), k ∈ dedupNat l ↔ k ∈ l := by
+  intro l
+  induction l with
+  | nil => simp [dedupNat]
+  | cons x xs ih =>
+    simp only [dedupNat]
+    by_cases hx : x ∈ xs
+    · rw [if_pos hx, ih, List.mem_cons]
+      constructor
+      · exact Or.inr
+      · rintro (rfl | h)
+        · exact hx
+        · exact h
+    · rw [if_neg hx, List.mem_cons, List.mem_cons, ih]
+
+theorem nodup_dedupNat : ∀ (l : List Nat), (dedupNat l).Nodup := by
+  intro l
+  induction l with
+  | nil => simp [dedupNat]
+  | cons x xs ih =>
+    simp only [dedupNat]
+    by_cases hx : x ∈ xs
+    · rw [if_pos hx]; exact ih
+    · rw [if_neg hx, List.nodup_cons]
+      exact ⟨fun h => hx ((mem_dedupNat x xs).1 h), ih⟩
+
 /-! ### shapes with zero extents -/
 
 theorem PosOn_of_getElem (p : Nat → Bool) :
@@ -879,17 +911,17 @@ theorem meanDivisor_eq_prodSel (S : Shape) (R : List Nat) (hnd : R.Nodup) (hlt :
   rw [meanDivisor_some, (perm_filter_range R S.length hnd hlt).foldl_eq' (fun x _ y _ z => divStep_comm S z x y)]
   rw [foldl_divStep_filter S _ S 0 1 (by intro r _; simp), Nat.one_mul]
 
-theorem addressed_length (s : Shape) (hs : Pos s) (l : List Int) (keep : Bool)
+theorem addressed_length_all (s : Shape) (l : List Int) (keep : Bool)
     (hv : ValidAxes s.length (some l)) (j : Idx) (hj : InShape j (specShape s (axisSet s.length (some l)) keep)) :
     (addressed s (axisSet s.length (some l)) keep j).length =
       prodSel (fun k => decide (k ∈ axisSet s.length (some l))) 0 s := by
-  have hr := reduceReads_eq_addressed s hs (some l) keep hv j hj
+  have hr := reduceReads_eq_addressed_all s (some l) keep hv j hj
   obtain ⟨hval, hnd⟩ := hv
   have hp : ∀ k, k < s.length → inAxis (some (l.map (normAxis s.length))) k = decide (k ∈ l.map (normAxis s.length)) :=
     fun k _ => inAxis_some _ k
   simp only [axisSet] at hj hr ⊢
   rw [specShape_eq_loop _ _ keep s hp] at hj
-  obtain ⟨sl, h1, h2, _⟩ := slicesL_box _ keep s 0 j hs hj
+  obtain ⟨sl, h1, _⟩ := slicesL_box_all _ keep s 0 j hj
   simp only [reduceReads, reductionSlices, unwrapAxes, normalizeAxes_eq, if_pos hval, Option.map_some,
     reductionSlicesLoop_eq, List.drop_zero, h1, Option.some.injEq] at hr
   rw [← hr]
@@ -898,6 +930,12 @@ theorem addressed_length (s : Shape) (hs : Pos s) (l : List Int) (keep : Bool)
   congr 1
   funext k
   exact inAxis_some _ k
+
+theorem addressed_length (s : Shape) (_hs : Pos s) (l : List Int) (keep : Bool)
+    (hv : ValidAxes s.length (some l)) (j : Idx) (hj : InShape j (specShape s (axisSet s.length (some l)) keep)) :
+    (addressed s (axisSet s.length (some l)) keep j).length =
+      prodSel (fun k => decide (k ∈ axisSet s.length (some l))) 0 s :=
+  addressed_length_all s l keep hv j hj
 
 theorem prodSel_all (s : Shape) (i : Nat) (p : Nat → Bool) (h : ∀ k, i ≤ k → k < i + s.length → p k = true) :
     prodSel p i s = prod s := by
@@ -995,7 +1033,7 @@ theorem foldFirst_none_cons {α : Type} (f : α → α → α) (l : List α) (h 
 
 /-- facts about an accepted axis argument used by mean / var: the normalised axis list is accepted again, names the
     same axis set, and `mean_divisor` is the number of elements folded into any result element -/
-theorem unwrapAxes_valid (s : Shape) (hs : Pos s) (axis : AxisArg) (hv : ValidAxes s.length axis) :
+theorem unwrapAxes_valid_all (s : Shape) (axis : AxisArg) (hv : ValidAxes s.length axis) :
     ∃ ax N, unwrapAxes s.length axis = some ax ∧
       ValidAxes s.length (ax.map (fun l => l.map Int.ofNat)) ∧
       axisSet s.length (ax.map (fun l => l.map Int.ofNat)) = axisSet s.length axis ∧
@@ -1006,7 +1044,7 @@ theorem unwrapAxes_valid (s : Shape) (hs : Pos s) (axis : AxisArg) (hv : ValidAx
   | none =>
     refine ⟨none, prod s, rfl, hv, rfl, rfl, ?_⟩
     intro keep j hj
-    have hr := reduceReads_eq_addressed s hs none keep hv j hj
+    have hr := reduceReads_eq_addressed_all s none keep hv j hj
     simp only [reduceReads, Option.some.injEq] at hr
     rw [← hr]; simp
   | some l =>
@@ -1020,16 +1058,25 @@ theorem unwrapAxes_valid (s : Shape) (hs : Pos s) (axis : AxisArg) (hv : ValidAx
     refine ⟨some (l.map (normAxis s.length)), _, ?_, hv', hset, meanDivisor_eq_prodSel s _ hv.2 hlt, ?_⟩
     · simp only [unwrapAxes, normalizeAxes_eq, if_pos hval, Option.map_some]
     · intro keep j hj
-      exact addressed_length s hs l keep hv j hj
+      exact addressed_length_all s l keep hv j hj
 
-/-- `mean` on accepted arguments: shape and elements -/
-theorem mean_spec {α : Type} (add : α → α → α) (divn : α → Nat → α) (a : Arr α) (axis : AxisArg) (keep : Bool)
-    (hs : Pos a.shape) (hv : ValidAxes a.shape.length axis) :
+theorem unwrapAxes_valid (s : Shape) (_hs : Pos s) (axis : AxisArg) (hv : ValidAxes s.length axis) :
+    ∃ ax N, unwrapAxes s.length axis = some ax ∧
+      ValidAxes s.length (ax.map (fun l => l.map Int.ofNat)) ∧
+      axisSet s.length (ax.map (fun l => l.map Int.ofNat)) = axisSet s.length axis ∧
+      meanDivisor s ax = some N ∧
+      ∀ keep j, InShape j (specShape s (axisSet s.length axis) keep) →
+        (addressed s (axisSet s.length axis) keep j).length = N :=
+  unwrapAxes_valid_all s axis hv
+
+/-- `mean` on accepted arguments, reduced extents positive (kept extents arbitrary): shape and elements -/
+theorem mean_spec_posAxes {α : Type} (add : α → α → α) (divn : α → Nat → α) (a : Arr α) (axis : AxisArg) (keep : Bool)
+    (hv : ValidAxes a.shape.length axis) (hR : PosAxes a.shape (axisSet a.shape.length axis)) :
     ∃ v, mean add divn a axis keep = some v ∧ v.shape = specShape a.shape (axisSet a.shape.length axis) keep ∧
       ∀ j, InShape j v.shape →
         v.get j = (foldFirst add none ((addressed a.shape (axisSet a.shape.length axis) keep j).map a.get)).map
                     (fun x => divn x (addressed a.shape (axisSet a.shape.length axis) keep j).length) := by
-  obtain ⟨ax, N, h1, h2, h3, h4, h5⟩ := unwrapAxes_valid a.shape hs axis hv
+  obtain ⟨ax, N, h1, h2, h3, h4, h5⟩ := unwrapAxes_valid_all a.shape axis hv
   refine ⟨⟨specShape a.shape (axisSet a.shape.length axis) keep, fun j =>
     (reduceElem add none a (ax.map (fun l => l.map Int.ofNat)) keep j).map (fun x => divn x N)⟩, ?_, rfl, ?_⟩
   · simp only [mean, h1, h4, reduce, removeDims_eq_spec a.shape _ keep h2, h3, Option.map_some]
@@ -1038,9 +1085,18 @@ theorem mean_spec {α : Type} (add : α → α → α) (divn : α → Nat → α
       rw [h3]; exact hj
     show (reduceElem add none a (ax.map (fun l => l.map Int.ofNat)) keep j).map (fun x => divn x N) = _
     have hne : (addressed a.shape (axisSet a.shape.length axis) keep j).map a.get ≠ [] := by
-      simpa using addressed_ne_nil a.shape hs axis keep hv j hj
-    rw [reduceElem_eq_reads, reduceReads_eq_addressed a.shape hs _ keep h2 j hj', h3, h5 keep j hj]
+      simpa using addressed_ne_nil_posAxes a.shape axis keep hv hR j hj
+    rw [reduceElem_eq_reads, reduceReads_eq_addressed_all a.shape _ keep h2 j hj', h3, h5 keep j hj]
     simp only [Option.bind_some, foldFirstNE_of_ne_nil add none hne]
+
+/-- `mean` on accepted arguments: shape and elements -/
+theorem mean_spec {α : Type} (add : α → α → α) (divn : α → Nat → α) (a : Arr α) (axis : AxisArg) (keep : Bool)
+    (hs : Pos a.shape) (hv : ValidAxes a.shape.length axis) :
+    ∃ v, mean add divn a axis keep = some v ∧ v.shape = specShape a.shape (axisSet a.shape.length axis) keep ∧
+      ∀ j, InShape j v.shape →
+        v.get j = (foldFirst add none ((addressed a.shape (axisSet a.shape.length axis) keep j).map a.get)).map
+                    (fun x => divn x (addressed a.shape (axisSet a.shape.length axis) keep j).length) :=
+  mean_spec_posAxes add divn a axis keep hv (posAxes_of_pos hs _)
 
 
 /-- for a source index `i` of the group of `j`, the keepdims group of `i` is the group of `j` -/
@@ -1073,14 +1129,15 @@ theorem proj_true_inShape (s : Shape) (R : List Nat) (i : Idx) (hi : InShape i s
   rw [proj_eq_loop _ R true i s.length hi.length_eq hp, specShape_eq_loop _ R true s hp]
   exact projL_inShape _ s 0 i hi
 
-theorem var_spec {α : Type} (add sub : α → α → α) (sqabs : α → α) (divn : α → Nat → α) (a : Arr α)
-    (axis : AxisArg) (ddof : Nat) (keep : Bool) (hs : Pos a.shape) (hv : ValidAxes a.shape.length axis) :
+theorem var_spec_posAxes {α : Type} (add sub : α → α → α) (sqabs : α → α) (divn : α → Nat → α) (a : Arr α)
+    (axis : AxisArg) (ddof : Nat) (keep : Bool) (hv : ValidAxes a.shape.length axis)
+    (hR : PosAxes a.shape (axisSet a.shape.length axis)) :
     ∃ v, var add sub sqabs divn a axis ddof keep = some v ∧
       v.shape = specShape a.shape (axisSet a.shape.length axis) keep ∧
       ∀ j, InShape j v.shape →
         v.get j = specVarElem add sub sqabs divn a (axisSet a.shape.length axis) keep ddof j := by
-  obtain ⟨ax, N, h1, h2, h3, h4, h5⟩ := unwrapAxes_valid a.shape hs axis hv
-  obtain ⟨m, hm1, hm2, hm3⟩ := mean_spec add divn a (ax.map (fun l => l.map Int.ofNat)) true hs h2
+  obtain ⟨ax, N, h1, h2, h3, h4, h5⟩ := unwrapAxes_valid_all a.shape axis hv
+  obtain ⟨m, hm1, hm2, hm3⟩ := mean_spec_posAxes add divn a (ax.map (fun l => l.map Int.ofNat)) true h2 (by rw [h3]; exact hR)
   rw [h3] at hm2 hm3
   refine ⟨⟨specShape a.shape (axisSet a.shape.length axis) keep, fun j =>
     ((reduceElem (optOp add) none
@@ -1094,8 +1151,8 @@ theorem var_spec {α : Type} (add sub : α → α → α) (sqabs : α → α) (d
     have hj' : InShape j (specShape a.shape (axisSet a.shape.length (ax.map (fun l => l.map Int.ofNat))) keep) := by
       rw [h3]; exact hj
     -- the group of j
-    obtain ⟨r, hr, hne⟩ := reduceReads_ne_nil a.shape hs axis keep hv j hj
-    rw [reduceReads_eq_addressed a.shape hs axis keep hv j hj, Option.some.injEq] at hr
+    obtain ⟨r, hr, hne⟩ := reduceReads_ne_nil_posAxes a.shape axis keep hv hR j hj
+    rw [reduceReads_eq_addressed_all a.shape axis keep hv j hj, Option.some.injEq] at hr
     obtain ⟨S, hS⟩ := foldFirst_none_cons add ((addressed a.shape (axisSet a.shape.length axis) keep j).map a.get)
       (by rw [hr]; simpa using hne)
     have hlen := h5 keep j hj
@@ -1109,9 +1166,17 @@ theorem var_spec {α : Type} (add sub : α → α → α) (sqabs : α → α) (d
           addressed_true_proj a.shape _ keep j i hi, hS, hlen]
       rfl
     show ((reduceElem (optOp add) none _ (ax.map (fun l => l.map Int.ofNat)) keep j).join).map _ = _
-    rw [reduceElem_eq_reads, reduceReads_eq_addressed a.shape hs _ keep h2 j hj', h3]
+    rw [reduceElem_eq_reads, reduceReads_eq_addressed_all a.shape _ keep h2 j hj', h3]
     simp only [Option.bind_some]
     rw [List.map_congr_left hd, foldFirstNE_of_ne_nil _ _ (by rw [hr]; simpa using hne), foldFirst_optOp_some]
     simp only [specVarElem, hS, Option.bind_some, hlen]
+
+theorem var_spec {α : Type} (add sub : α → α → α) (sqabs : α → α) (divn : α → Nat → α) (a : Arr α)
+    (axis : AxisArg) (ddof : Nat) (keep : Bool) (hs : Pos a.shape) (hv : ValidAxes a.shape.length axis) :
+    ∃ v, var add sub sqabs divn a axis ddof keep = some v ∧
+      v.shape = specShape a.shape (axisSet a.shape.length axis) keep ∧
+      ∀ j, InShape j v.shape →
+        v.get j = specVarElem add sub sqabs divn a (axisSet a.shape.length axis) keep ddof j :=
+  var_spec_posAxes add sub sqabs divn a axis ddof keep hv (posAxes_of_pos hs _)
 
 end NmVerif.Reduce
